@@ -137,3 +137,156 @@ fn cover_scopefns() {
     let t: u8 = kani::any();
     kani::cover!(t == 3);
 }
+
+// ---- C16: the flag logic of variable assignment (`Scope::set_variable`,
+// the part after the `module.name` case), extracted each run.  The scope's
+// own state is replaced by a probe (listed substitutions): `get_or_none`
+// answers what the harness chose, `define_global` and the insertion into the
+// local map record where the value was written. ----
+use std::cell::Cell;
+
+#[derive(Clone, Copy, PartialEq, Eq, Debug)]
+enum Wrote {
+    Nothing,
+    Local,
+    Global,
+}
+struct VarProbe {
+    /// what a lookup of the name finds: 0 = undefined, 1 = null, 2 = a value
+    existing: u8,
+    wrote: Cell<Wrote>,
+    writes: Cell<u8>,
+}
+impl VarProbe {
+    fn lookup(&self) -> Option<Value> {
+        match self.existing {
+            0 => None,
+            1 => Some(Value::Null),
+            _ => Some(Value::True),
+        }
+    }
+    fn global(&self, _name: Name, _val: Value) {
+        self.wrote.set(Wrote::Global);
+        self.writes.set(self.writes.get() + 1);
+    }
+    fn local(&self, _name: Name, _val: Value) {
+        self.wrote.set(Wrote::Local);
+        self.writes.set(self.writes.get() + 1);
+    }
+}
+
+//@range file=rsass/src/variablescope.rs impl="impl Scope" fn=set_variable from="if default\n            && !matches!(self.get_or_none(&name)"
+//@  header: fn snippet_set_variable(probe: &VarProbe, name: Name, val: Value, default: bool, global: bool) -> Result<(), ()>
+//@  subst: self.get_or_none(&name) => probe.lookup()
+//@  subst: self.define_global(name, val) => probe.global(name, val)
+//@  subst: self.variables.lock().unwrap().insert(name, val) => probe.local(name, val)
+//@end
+
+/// C16: `!default` assigns only when the variable is undefined or null;
+/// `!global` always writes the global; without `!global` the write is local;
+/// exactly one write, or none.  One harness per combination (a symbolic
+/// choice of the existing value's kind makes CBMC explode): all 12.
+fn assignment_flags(existing: u8, default: bool, global: bool) {
+    let p = VarProbe { existing, wrote: Cell::new(Wrote::Nothing), writes: Cell::new(0) };
+    let r = snippet_set_variable(&p, Name::from_static("x"), Value::False, default, global);
+    assert!(r.is_ok());
+    if default && existing == 2 {
+        assert!(p.wrote.get() == Wrote::Nothing, "!default does not assign when the variable already has a value");
+    } else {
+        assert!(p.writes.get() == 1, "the assignment writes exactly once");
+        assert!(p.wrote.get() == if global { Wrote::Global } else { Wrote::Local }, "!global writes the global, otherwise the write is local");
+    }
+}
+macro_rules! flags_case {
+    ($name:ident, $e:expr, $d:expr, $g:expr) => {
+        #[kani::proof]
+        #[kani::unwind(4)]
+        fn $name() {
+            assignment_flags($e, $d, $g)
+        }
+    };
+}
+flags_case!(c16_plain_undefined, 0, false, false);
+flags_case!(c16_plain_null, 1, false, false);
+flags_case!(c16_plain_defined, 2, false, false);
+flags_case!(c16_global_undefined, 0, false, true);
+flags_case!(c16_global_null, 1, false, true);
+flags_case!(c16_global_defined, 2, false, true);
+flags_case!(c16_default_undefined, 0, true, false);
+flags_case!(c16_default_null, 1, true, false);
+flags_case!(c16_default_defined, 2, true, false);
+flags_case!(c16_default_global_undefined, 0, true, true);
+flags_case!(c16_default_global_null, 1, true, true);
+flags_case!(c16_default_global_defined, 2, true, true);
+
+/// C16, first clause: "an assignment without flags updates the variable in
+/// the innermost enclosing scope that already declares it".  KNOWN FINDING:
+/// `set_variable` never consults the enclosing scopes for a plain assignment
+/// — it always inserts into the current scope's own map, so
+/// `a { $x: 1; b { $x: 2; } c: $x }` gives `c: 1` (Sass: 2).
+#[kani::proof]
+#[kani::unwind(4)]
+fn c16_assignment_updates_innermost_declaring_scope() {
+    // the variable is declared (with a value) in an enclosing local scope, not in the current one
+    let p = VarProbe { existing: 2, wrote: Cell::new(Wrote::Nothing), writes: Cell::new(0) };
+    let r = snippet_set_variable(&p, Name::from_static("x"), Value::False, false, false);
+    assert!(r.is_ok());
+    // the only writes the range can perform are `Local` (the current scope's own map) and `Global`
+    assert!(p.wrote.get() != Wrote::Local, "a plain assignment to a variable declared in an enclosing scope must update it there, not create a new local");
+}
+
+// ---- C18 / C17: `@while` inside a function body (`ScopeRef::eval_body`):
+// a `@return` reached in the loop body ends the function at once — the
+// condition is not evaluated again.  The arm is extracted each run; the
+// evaluation of the condition and of the body are probes (listed
+// substitutions). ----
+struct FnLoop {
+    /// the body returns a value in this (0-based) iteration; 255 = never
+    returns_at: u8,
+    /// the condition is truthy for this many evaluations
+    truthy_for: u8,
+    asked: Cell<u8>,
+    ran: Cell<u8>,
+}
+impl FnLoop {
+    fn next_cond(&self) -> Result<Value, ()> {
+        let i = self.asked.get();
+        self.asked.set(i + 1);
+        Ok(if i < self.truthy_for { Value::True } else { Value::Null })
+    }
+    fn run_body(&self) -> Result<Option<u8>, ()> {
+        let i = self.ran.get();
+        self.ran.set(i + 1);
+        Ok(if i == self.returns_at { Some(42) } else { None })
+    }
+}
+
+//@range file=rsass/src/variablescope.rs impl="impl ScopeRef" fn=eval_body after="Item::While(cond, body) => {" until="\n                }\n                Item::Debug"
+//@  header: fn snippet_fn_while(probe: &FnLoop) -> Result<Option<u8>, ()>
+//@  subst: Self::sub(self.clone()) => ()
+//@  subst: cond.evaluate(scope.clone()) => probe.next_cond()
+//@  subst: scope.clone().eval_body(body) => probe.run_body()
+//@  head: Ok({
+//@  tail: })
+//@end
+
+/// C18: a function returns the first @return it reaches — inside @while the
+/// loop stops there and the condition is not evaluated again.
+#[kani::proof]
+#[kani::unwind(7)]
+fn c18_return_inside_while_stops_at_once() {
+    let p = FnLoop { returns_at: 1, truthy_for: 4, asked: Cell::new(0), ran: Cell::new(0) };
+    let r = snippet_fn_while(&p);
+    assert!(r == Ok(Some(42)), "the value of the first @return reached");
+    assert!(p.ran.get() == 2, "the body ran twice (the second time it returned)");
+    assert!(p.asked.get() == 2, "the condition is not evaluated again after @return");
+}
+/// C17: without @return the loop runs while the condition is truthy.
+#[kani::proof]
+#[kani::unwind(7)]
+fn c17_fn_while_runs_while_truthy() {
+    let p = FnLoop { returns_at: 255, truthy_for: 3, asked: Cell::new(0), ran: Cell::new(0) };
+    let r = snippet_fn_while(&p);
+    assert!(r == Ok(None), "no @return reached");
+    assert!(p.ran.get() == 3 && p.asked.get() == 4, "once per truthy condition; stops at the first falsey one");
+}
